@@ -15,6 +15,9 @@ import (
 
 	"mosn.io/api"
 	v2 "mosn.io/mosn/pkg/config/v2"
+	_ "mosn.io/mosn/pkg/filter/stream/faultinject"
+	_ "mosn.io/mosn/pkg/filter/stream/ipaccess"
+	_ "mosn.io/mosn/pkg/filter/stream/payloadlimit"
 	"mosn.io/mosn/pkg/types"
 	"mosn.io/pkg/variable"
 	"verif/harness/hx"
@@ -42,6 +45,9 @@ func (v verdict) tok() string {
 type rfilter struct {
 	phase  px.Phase
 	script []verdict
+	// builtin != "": the filter is the REAL MOSN stream filter of that kind (ip | payload | fault), configured so that it
+	// behaves like `script` on this case; phase is the phase the real factory registers it for
+	builtin string
 }
 
 type sfilter struct{ script []api.StreamFilterStatus }
@@ -57,6 +63,7 @@ type kase struct {
 	trl    bool
 	up     string // r<code>:<d>:<t> | reset | term<code>
 	mix    bool   // register sender filters interleaved with the receiver filters
+	ipDeny bool   // the request carries a client address on the ip_access block list
 }
 
 func (k *kase) tok() string {
@@ -87,8 +94,18 @@ func (k *kase) tok() string {
 		}
 		return "0"
 	}
-	return fmt.Sprintf("ch %s %s route=%s host=%s pool=%s oneway=%s body=%s trl=%s up=%s", j(rs), j(ss),
-		strings.Join(k.routes, ","), b(k.host), k.pool, b(k.oneway), b(k.body), b(k.trl), k.up)
+	var bi []string
+	for i, f := range k.recv {
+		if f.builtin != "" {
+			bi = append(bi, fmt.Sprintf("%d:%s", i, f.builtin))
+		}
+	}
+	extra := ""
+	if len(bi) > 0 {
+		extra = " builtin=" + strings.Join(bi, ",")
+	}
+	return fmt.Sprintf("ch %s %s route=%s host=%s pool=%s oneway=%s body=%s trl=%s up=%s%s", j(rs), j(ss),
+		strings.Join(k.routes, ","), b(k.host), k.pool, b(k.oneway), b(k.body), b(k.trl), k.up, extra)
 }
 
 // ---- running one case on the real proxy core --------------------------------------------------------------------
@@ -175,6 +192,7 @@ func runCase(k *kase) string {
 		}
 		return pf
 	}
+	builtins := map[int]px.Builtin{}
 	ri, si := 0, 0
 	for ri < len(k.recv) || si < len(k.send) {
 		takeSend := ri >= len(k.recv) || (k.mix && si < len(k.send) && (ri+si)%2 == 1)
@@ -184,6 +202,9 @@ func runCase(k *kase) string {
 			si++
 		} else {
 			local[len(filters)] = ri
+			if b := k.recv[ri].builtin; b != "" {
+				builtins[len(filters)] = builtinOf(b, k.recv[ri])
+			}
 			filters = append(filters, mkRecv(ri, k.recv[ri]))
 			ri++
 		}
@@ -200,6 +221,11 @@ func runCase(k *kase) string {
 		Vars: map[string]interface{}{types.VarProxyDisableRetry: true},
 	})
 	defer fixture.Close()
+	if len(builtins) > 0 {
+		if err := fixture.SetBuiltins(builtins); err != nil {
+			panic(fmt.Sprintf("c14: builtin filters: %v", err))
+		}
+	}
 	switch k.pool {
 	case "overflow":
 		fixture.PoolFail(types.Overflow)
@@ -214,7 +240,11 @@ func runCase(k *kase) string {
 	if k.trl {
 		trailers = px.H("t", "1")
 	}
-	ex := fixture.Request(px.H(":path", pathOf(k.routes[0]), ":authority", "svc", ":scheme", "http"), body, trailers)
+	xip := "10.2.2.2"
+	if k.ipDeny {
+		xip = "10.1.1.1"
+	}
+	ex := fixture.Request(px.H(":path", pathOf(k.routes[0]), ":authority", "svc", ":scheme", "http", "x-ip", xip), body, trailers)
 
 	// phase 1: the worker runs until it finishes, waits for the upstream, or gives up
 	waitSettled(ex)
@@ -284,6 +314,51 @@ func runCase(k *kase) string {
 	return strings.Join(out, " ")
 }
 
+// builtinOf configures the real filter so that, on this case, it does what the equivalent script says.
+func builtinOf(kind string, f rfilter) px.Builtin {
+	deny := len(f.script) > 0 && f.script[0].act == "h"
+	switch kind {
+	case "ip":
+		// block list on the x-ip header; the request carries a listed address iff the case says so
+		return px.Builtin{Type: v2.IPAccess, Config: map[string]interface{}{
+			"default_action": "allow", "header": "x-ip",
+			"ips": []interface{}{map[string]interface{}{"action": "deny", "addrs": []interface{}{"10.1.1.1", "192.168.0.0/16"}}}}}
+	case "payload":
+		// (the JSON key of max_entity_size carries a trailing blank in v2.StreamPayloadLimit's tag)
+		return px.Builtin{Type: v2.PayloadLimit, Config: map[string]interface{}{"max_entity_size ": 3, "http_status": 413}}
+	default:
+		pct := 0
+		if deny {
+			pct = 100
+		}
+		return px.Builtin{Type: v2.FaultStream, Config: map[string]interface{}{
+			"abort": map[string]interface{}{"status": 418, "percentage": pct}}}
+	}
+}
+
+// builtinFilter returns the model-side description of a real filter on a case: phase = the phase its factory registers
+// for, script = what it does (deny = SendHijackReply(code) + Stop, else Continue).
+func builtinFilter(kind string, k *kase, faultOn bool) rfilter {
+	pass := []verdict{{"n", 0, sC}}
+	switch kind {
+	case "ip":
+		if k.ipDeny {
+			return rfilter{phase: px.BeforeRoute, script: []verdict{{"h", 403, sS}}, builtin: kind}
+		}
+		return rfilter{px.BeforeRoute, pass, kind}
+	case "payload":
+		if k.body { // 7 bytes > max_entity_size 3
+			return rfilter{phase: px.AfterRoute, script: []verdict{{"h", 413, sS}}, builtin: kind}
+		}
+		return rfilter{px.AfterRoute, pass, kind}
+	default:
+		if faultOn {
+			return rfilter{phase: px.AfterRoute, script: []verdict{{"h", 418, sS}}, builtin: kind}
+		}
+		return rfilter{px.AfterRoute, pass, kind}
+	}
+}
+
 // waitSettled waits until the exchange is finished or its trace is stable; an unfinished exchange without an upstream
 // attempt (worker gave up) is given a longer stability window.
 func waitSettled(ex *px.Exchange) {
@@ -329,7 +404,7 @@ func filtersOver(alpha []verdict) []rfilter {
 	for _, ph := range []px.Phase{px.BeforeRoute, px.AfterRoute, px.AfterChooseHost} {
 		for _, v := range alpha {
 			for _, sc := range scriptsFor(v) {
-				out = append(out, rfilter{ph, sc})
+				out = append(out, rfilter{phase: ph, script: sc})
 			}
 		}
 	}
@@ -408,16 +483,16 @@ func Run(c *hx.Ctx) {
 	}
 
 	// corpus: minimised past failures and the boundaries of the worker's task loop
-	add(plain(&kase{recv: []rfilter{{px.AfterRoute, []verdict{{"h", 403, sC}}}, {px.AfterRoute, []verdict{{"n", 0, sRM}, {"n", 0, sC}}}}}))
-	add(plain(&kase{recv: []rfilter{{px.AfterChooseHost, []verdict{{"d", 0, sC}}}, {px.AfterChooseHost, []verdict{{"n", 0, sRC}, {"n", 0, sC}}}}}))
-	add(plain(&kase{recv: []rfilter{{px.AfterRoute, []verdict{{"h", 401, sRM}, {"n", 0, sC}}}}}))
+	add(plain(&kase{recv: []rfilter{{phase: px.AfterRoute, script: []verdict{{"h", 403, sC}}}, {phase: px.AfterRoute, script: []verdict{{"n", 0, sRM}, {"n", 0, sC}}}}}))
+	add(plain(&kase{recv: []rfilter{{phase: px.AfterChooseHost, script: []verdict{{"d", 0, sC}}}, {phase: px.AfterChooseHost, script: []verdict{{"n", 0, sRC}, {"n", 0, sC}}}}}))
+	add(plain(&kase{recv: []rfilter{{phase: px.AfterRoute, script: []verdict{{"h", 401, sRM}, {"n", 0, sC}}}}}))
 	for _, n := range []int{7, 8, 9, 12} {
 		var sc []verdict
 		for i := 0; i < n; i++ {
 			sc = append(sc, verdict{"n", 0, sRM})
 		}
-		add(plain(&kase{recv: []rfilter{{px.AfterRoute, append(append([]verdict{}, sc...), verdict{"n", 0, sC})}}}))
-		add(plain(&kase{recv: []rfilter{{px.AfterRoute, append(append([]verdict{}, sc...), verdict{"h", 403, sS})}}}))
+		add(plain(&kase{recv: []rfilter{{phase: px.AfterRoute, script: append(append([]verdict{}, sc...), verdict{"n", 0, sC})}}}))
+		add(plain(&kase{recv: []rfilter{{phase: px.AfterRoute, script: append(append([]verdict{}, sc...), verdict{"h", 403, sS})}}}))
 	}
 
 	// exhaustive small chains
@@ -459,6 +534,25 @@ func Run(c *hx.Ctx) {
 				}
 			}
 		}
+	}
+	// the real deny filters of MOSN (ip_access, payload_limit, fault) as concrete instances among scripted filters
+	for i := 0; i < c.N(600, 1500); i++ {
+		k := &kase{}
+		randEnv(rng, k)
+		k.ipDeny = rng.Chance(40)
+		kind := []string{"ip", "payload", "fault"}[i%3]
+		var chain []rfilter
+		for j := 0; j < rng.Intn(3); j++ {
+			chain = append(chain, fl[rng.Intn(len(fl))])
+		}
+		pos := rng.Intn(len(chain) + 1)
+		bf := builtinFilter(kind, k, rng.Chance(50))
+		chain = append(chain[:pos], append([]rfilter{bf}, chain[pos:]...)...)
+		if rng.Chance(25) { // two real filters in one chain
+			chain = append(chain, builtinFilter([]string{"ip", "payload", "fault"}[(i+1)%3], k, rng.Chance(50)))
+		}
+		k.recv = chain
+		add(k)
 	}
 	// random longer chains, mostly-continue with deviations
 	for i := 0; i < c.N(1500, 4000); i++ {
@@ -512,6 +606,15 @@ func Run(c *hx.Ctx) {
 		c.Count("route=" + strings.Join(k.routes, ","))
 		c.Count("up=" + k.up)
 		c.Count("pool=" + k.pool)
+		for _, f := range k.recv {
+			if f.builtin != "" {
+				d := "pass"
+				if f.script[0].act == "h" {
+					d = "deny"
+				}
+				c.Count("builtin=" + f.builtin + ":" + d)
+			}
+		}
 		for _, t := range []string{" un", " uf", " dh:", "done=0"} {
 			if strings.Contains(" "+res[i], t) {
 				c.Count("out" + strings.TrimSpace(t))
